@@ -3,9 +3,9 @@
 set -u
 id="$1"; race="${2:-}"
 cd /verif
-for d in /tmp/wt/$id/out/m*/; do
+for d in ${SEEDROOT:-/tmp/wt}/$id/out/m*/; do
   [ -f "$d/patch.diff" ] || continue
-  name="$id-$(basename $d)"
+  name="$id-${SEEDPREFIX:-}$(basename $d)"
   v=$(tools/verify_seed.sh "$d" $race 2>&1 | grep VERDICT)
   echo "$v"
   case "$v" in *CONFIRMED*) ;; *) continue;; esac
